@@ -158,7 +158,26 @@ func cborCid(data []byte) cid.Cid { return mkCid(1, 0x71, mh.SHA2_256, -1, data)
 type dagStore struct {
 	blks []Blk
 	seen map[string]bool
+	gone map[string]bool // CIDs the case declares missing
 	sb   *sandbox // for placeholder substitution in link targets
+}
+
+func (s *dagStore) missing(c cid.Cid) {
+	if s.gone == nil {
+		s.gone = map[string]bool{}
+	}
+	s.gone[c.KeyString()] = true
+}
+
+// collision: a block declared missing is present after all (same bytes elsewhere in the DAG);
+// the case does not mean what its value says and must not be emitted.
+func (s *dagStore) collision() bool {
+	for k := range s.gone {
+		if s.seen[k] {
+			return true
+		}
+	}
+	return false
 }
 
 func (s *dagStore) put(c cid.Cid, data []byte) {
@@ -240,6 +259,8 @@ func (s *dagStore) buildFile(data []byte, form, chunks, missing int) cid.Cid {
 				tsize = uint64(len(p))
 				if i != missing {
 					s.put(c, p)
+				} else {
+					s.missing(c)
 				}
 			} else {
 				nb := encPBNode(nil, encUnixFS(ufsData{Type: ufsFile, Data: p, HasData: true, FileSize: uint64(len(p)), HasSize: true}), true)
@@ -247,6 +268,8 @@ func (s *dagStore) buildFile(data []byte, form, chunks, missing int) cid.Cid {
 				tsize = uint64(len(nb))
 				if i != missing {
 					s.put(c, nb)
+				} else {
+					s.missing(c)
 				}
 			}
 			links = append(links, pbLink{Cid: c, Name: nil, HasName: true, Tsize: tsize, HasTsize: true})
@@ -279,7 +302,9 @@ func (s *dagStore) build(v Val) cid.Cid {
 		return c
 	case "m":
 		nb := encPBNode(nil, encUnixFS(ufsData{Type: ufsFile, Data: append([]byte("missing-"), vb(vnth(v, 1))...), HasData: true}), true)
-		return pbCid(nb) // never stored
+		c := pbCid(nb) // never stored
+		s.missing(c)
+		return c
 	case "d":
 		form := int(vn(vnth(v, 2)))
 		var links []pbLink
@@ -307,6 +332,8 @@ func (s *dagStore) build(v Val) cid.Cid {
 				cc := pbCid(child)
 				if form == 2 {
 					s.put(cc, child)
+				} else {
+					s.missing(cc)
 				}
 				nl := append([]pbLink{}, links[:lo]...)
 				nl = append(nl, pbLink{Cid: cc, Name: []byte("7F"), HasName: true, Tsize: 1, HasTsize: true})
@@ -658,6 +685,9 @@ func runExtractCase(c *Ctx, in Val) Val {
 			roots = append(roots, st.build(vnth(r, 1)))
 		}
 	}
+	if st.collision() {
+		return VL{VT("generator-collision")}
+	}
 	payload := refPayload(roots, st.blks)
 	opts := vnth(in, 5)
 	useStdin := vn(vnth(opts, 0)) != 0
@@ -668,7 +698,9 @@ func runExtractCase(c *Ctx, in Val) Val {
 	if err != nil {
 		panic(err)
 	}
-	defer os.RemoveAll(carDir)
+	if os.Getenv("VERIF_CLI_KEEP") == "" {
+		defer os.RemoveAll(carDir)
+	}
 	carPath := carDir + "/in.car"
 	if err := os.WriteFile(carPath, payload, 0o644); err != nil {
 		panic(err)
